@@ -310,7 +310,14 @@ pub fn gen_project(rng: &mut Rng, po: &ProjOpts) -> Option<Project> {
     }
     let shaped = if po.extension_split && rng.coin() { split_extensions(&schema, rng) } else { schema.clone() };
     // schema files
-    let schema_dirs = ["schema/a.graphql", "schema/sub/b.graphql", "schema/c.graphqls"];
+    // file names: plain, or with characters that are legal in POSIX file names but special somewhere else (space,
+    // backslash, non-ASCII, '#', '%')
+    let schema_dirs: [&str; 3] = *rng.pick(&[
+        ["schema/a.graphql", "schema/sub/b.graphql", "schema/c.graphqls"],
+        ["schema/a.graphql", "schema/sub/b.graphql", "schema/c.graphqls"],
+        ["schema/a.graphql", "schema/sub/b.graphql", "schema/c.graphqls"],
+        ["schema/type\\user.graphql", "schema/sub dir/b b.graphql", "schema/ünï#1%20.graphqls"],
+    ]);
     let nfiles = rng.range(1, po.max_schema_files.min(shaped.defs.len()).max(1));
     let mut sfiles: Vec<TsDoc> = (0..nfiles).map(|_| TsDoc::default()).collect();
     for d in &shaped.defs {
@@ -340,7 +347,8 @@ pub fn gen_project(rng: &mut Rng, po: &ProjOpts) -> Option<Project> {
     };
     if rng.chance(1, 3) {
         if let Some(d2) = gen_valid_doc(rng, &ix, &OpOpts { fragments: false, max_ops: 1, ..OpOpts::standard() }) {
-            op_models.push((format!("{root}/ops/other.graphql"), d2));
+            let other = *rng.pick(&["ops/other.graphql", "ops/other.graphql", "ops/oth er\\x.graphql", "ops/ö#ther.graphql"]);
+            op_models.push((format!("{root}/{other}"), d2));
         }
     }
     let mut op_paths = vec![];
